@@ -436,21 +436,76 @@ theorem runObjs_inv {S : Schemas} {s : Schema} (c : Ctx S s) (objs : List Obj) {
     · subst h; exact g3 _ h4
     · exact g4 o' h
 
+/-- every object queued under an already emitted key has its name among the definitions -/
+def EmOK (S : Schemas) (d : Def) (em : List String) : Prop :=
+  ∀ o ∈ allObjs S, selfKey o ∈ em → o.name ∈ keys d
+
+theorem stepForeign_inv {S : Schemas} {s : Schema} (c : Ctx S s) {d : Def} {q : Pending} {em : List String}
+    {e : String × Obj} {rem : List Obj}
+    (hq : PendOK S q) (he1 : e.1 = selfKey e.2) (he2 : e.2 ∈ allObjs S) (ho : objRefsOK S s e.2 = true)
+    (hem : EmOK S d em) (hinv : Inv s d q (e.2 :: rem)) :
+    PendOK S (stepForeign S s.pkg (d, q, em) e).2.1 ∧
+    Inv s (stepForeign S s.pkg (d, q, em) e).1 (stepForeign S s.pkg (d, q, em) e).2.1 rem ∧
+    (∀ x ∈ keys d, x ∈ keys (stepForeign S s.pkg (d, q, em) e).1) ∧
+    EmOK S (stepForeign S s.pkg (d, q, em) e).1 (stepForeign S s.pkg (d, q, em) e).2.2 := by
+  unfold stepForeign
+  by_cases hc : em.contains e.1 = true
+  · simp only [hc, if_true]
+    refine ⟨hq, ?_, fun x hx => hx, hem⟩
+    intro x hx
+    rcases hinv x hx with h1 | h1 | h1 | h1
+    · exact Or.inl h1
+    · exact Or.inr (Or.inl h1)
+    · simp only [onames, List.map_cons, List.mem_cons] at h1
+      rcases h1 with h1 | h1
+      · left; rw [h1]
+        exact hem e.2 he2 (by rw [← he1]; simpa using hc)
+      · exact Or.inr (Or.inr (Or.inl h1))
+    · exact Or.inr (Or.inr (Or.inr h1))
+  · simp only [hc, Bool.false_eq_true, if_false]
+    obtain ⟨h1, h2, h3, h4⟩ := stepObj_inv c hq ho hinv
+    refine ⟨h1, h2, h3, ?_⟩
+    intro o ho' hk
+    rcases List.mem_cons.1 hk with hk | hk
+    · have : o.name = e.2.name := c.inj o ho' e.2 he2 (by rw [hk, he1])
+      rw [this]; exact h4
+    · exact h3 _ (hem o ho' hk)
+
+theorem runForeign_inv {S : Schemas} {s : Schema} (c : Ctx S s)
+    (hall : ∀ o ∈ allObjs S, objRefsOK S s o = true) (l : Pending)
+    (hl : ∀ e ∈ l, e.1 = selfKey e.2 ∧ e.2 ∈ allObjs S) {d : Def} {q : Pending} {em : List String}
+    (hq : PendOK S q) (hem : EmOK S d em) (hinv : Inv s d q (l.map (·.2))) :
+    PendOK S (runForeign S s.pkg l (d, q, em)).2.1 ∧
+    Inv s (runForeign S s.pkg l (d, q, em)).1 (runForeign S s.pkg l (d, q, em)).2.1 [] ∧
+    (∀ x ∈ keys d, x ∈ keys (runForeign S s.pkg l (d, q, em)).1) ∧
+    EmOK S (runForeign S s.pkg l (d, q, em)).1 (runForeign S s.pkg l (d, q, em)).2.2 := by
+  induction l generalizing d q em with
+  | nil => exact ⟨hq, hinv, fun x hx => hx, hem⟩
+  | cons e rest ih =>
+    obtain ⟨he1, he2⟩ := hl e (by simp)
+    have hinv' : Inv s d q (e.2 :: rest.map (·.2)) := by simpa using hinv
+    obtain ⟨h1, h2, h3, h4⟩ := stepForeign_inv (rem := rest.map (·.2)) c hq he1 he2 (hall _ he2) hem hinv'
+    obtain ⟨g1, g2, g3, g4⟩ := ih (fun e' he' => hl e' (by simp [he'])) h1 h4 h2
+    simp only [runForeign, List.foldl_cons] at g1 g2 g3 g4 ⊢
+    exact ⟨g1, g2, fun x hx => g3 x (h3 x hx), g4⟩
+
 /-- state between two rounds of the loop -/
-structure Between (S : Schemas) (s : Schema) (d : Def) (q : Pending) : Prop where
+structure Between (S : Schemas) (s : Schema) (d : Def) (q : Pending) (em : List String) : Prop where
   pend : PendOK S q
   refs : ∀ x ∈ JS.refsKvs d, x ∈ keys d ∨ x ∈ pnames q
   locals : ∀ x, localHas s x = true → x ∈ keys d
+  emitted : EmOK S d em
 
 theorem closure_inv {S : Schemas} {s : Schema} (c : Ctx S s)
     (hall : ∀ o ∈ allObjs S, objRefsOK S s o = true) :
-    ∀ (fuel : Nat) (d : Def) (q : Pending) (D : Def), Between S s d q → closure S s.pkg fuel d q = some D →
+    ∀ (fuel : Nat) (d : Def) (q : Pending) (em : List String) (D : Def), Between S s d q em →
+      closure S s.pkg fuel d q em = some D →
       (∀ x ∈ JS.refsKvs D, x ∈ keys D) ∧ (∀ x, localHas s x = true → x ∈ keys D) ∧ (∀ x ∈ keys d, x ∈ keys D) := by
   intro fuel
   induction fuel with
-  | zero => intro d q D _ h; simp [closure] at h
+  | zero => intro d q em D _ h; simp [closure] at h
   | succ n ih =>
-    intro d q D hb h
+    intro d q em D hb h
     simp only [closure] at h
     split at h
     · rename_i he
@@ -462,26 +517,24 @@ theorem closure_inv {S : Schemas} {s : Schema} (c : Ctx S s)
       rcases hb.refs x hx with h1 | h1
       · exact h1
       · simp [pnames] at h1
-    · have hobjs : ∀ o ∈ q.map (·.2), objRefsOK S s o = true := by
-        intro o ho
-        obtain ⟨e, he, rfl⟩ := List.mem_map.1 ho
-        exact hall _ (hb.pend.fromS e he)
+    · have hl : ∀ e ∈ q, e.1 = selfKey e.2 ∧ e.2 ∈ allObjs S := fun e he => ⟨hb.pend.key e he, hb.pend.fromS e he⟩
       have hinv : Inv s d [] (q.map (·.2)) := by
         intro x hx
         rcases hb.refs x hx with h1 | h1
         · exact Or.inl h1
         · right; right; left
           simpa [pnames, onames] using h1
-      obtain ⟨g1, g2, g3, _⟩ := runObjs_inv c (q.map (·.2)) (pendOK_nil S) hobjs hinv
-      have hb' : Between S s (runObjs S s.pkg (q.map (·.2)) (d, [])).1 (runObjs S s.pkg (q.map (·.2)) (d, [])).2 := by
-        refine ⟨g1, ?_, fun x hx => g3 x (hb.locals x hx)⟩
+      obtain ⟨g1, g2, g3, g4⟩ := runForeign_inv c hall q hl (pendOK_nil S) hb.emitted hinv
+      have hb' : Between S s (runForeign S s.pkg q (d, [], em)).1 (runForeign S s.pkg q (d, [], em)).2.1
+          (runForeign S s.pkg q (d, [], em)).2.2 := by
+        refine ⟨g1, ?_, fun x hx => g3 x (hb.locals x hx), g4⟩
         intro x hx
         rcases g2 x hx with h1 | h1 | h1 | h1
         · exact Or.inl h1
         · exact Or.inr h1
         · simp [onames] at h1
         · exact Or.inl (g3 x (hb.locals x h1))
-      obtain ⟨r1, r2, r3⟩ := ih _ _ D hb' h
+      obtain ⟨r1, r2, r3⟩ := ih _ _ _ D hb' h
       exact ⟨r1, r2, fun x hx => r3 x (g3 x hx)⟩
 
 theorem localHas_iff {s : Schema} {x : String} : localHas s x = true ↔ x ∈ onames (schemaObjs s) := by
@@ -489,14 +542,14 @@ theorem localHas_iff {s : Schema} {x : String} : localHas s x = true ↔ x ∈ o
 
 theorem firstRound_between {S : Schemas} {s : Schema} (c : Ctx S s)
     (hloc : ∀ o ∈ schemaObjs s, objRefsOK S s o = true) :
-    Between S s (firstRound S s).1 (firstRound S s).2 := by
+    Between S s (firstRound S s).1 (firstRound S s).2 [] := by
   have hinv : Inv s [] [] (schemaObjs s) := by intro x hx; simp [JS.refsKvs] at hx
   obtain ⟨g1, g2, _, g4⟩ := runObjs_inv c (schemaObjs s) (pendOK_nil S) hloc hinv
   have hloc' : ∀ x, localHas s x = true → x ∈ keys (firstRound S s).1 := by
     intro x hx
     obtain ⟨o, ho, rfl⟩ := List.mem_map.1 (localHas_iff.1 hx)
     exact g4 o ho
-  refine ⟨g1, ?_, hloc'⟩
+  refine ⟨g1, ?_, hloc', fun o _ h => by simp at h⟩
   intro x hx
   rcases g2 x hx with h1 | h1 | h1 | h1
   · exact Or.inl h1
@@ -517,7 +570,7 @@ theorem emitDefs_closed {S : Schemas} {s : Schema} (h : emitClosed S s = true) {
     (he : emitDefs fuel S s = some D) :
     (∀ x ∈ JS.refsKvs D, x ∈ keys D) ∧ (∀ x, localHas s x = true → x ∈ keys D) := by
   obtain ⟨c, h3, h4, _⟩ := emitClosed_parts h
-  obtain ⟨r1, r2, _⟩ := closure_inv c h4 fuel _ _ D (firstRound_between c h3) he
+  obtain ⟨r1, r2, _⟩ := closure_inv c h4 fuel _ _ _ D (firstRound_between c h3) he
   exact ⟨r1, r2⟩
 
 /-! ### presence of objects without any hypothesis: keys only grow -/
@@ -540,22 +593,36 @@ theorem runObjs_keys (S : Schemas) (pkg : String) (objs : List Obj) (st : Def ×
     · subst h; exact g1 _ h2
     · exact g2 o' h
 
+theorem runForeign_keys (S : Schemas) (pkg : String) (l : Pending) (st : Def × Pending × List String) :
+    ∀ x ∈ keys st.1, x ∈ keys (runForeign S pkg l st).1 := by
+  induction l generalizing st with
+  | nil => exact fun _ hx => hx
+  | cons e rest ih =>
+    intro x hx
+    simp only [runForeign, List.foldl_cons]
+    apply ih
+    unfold stepForeign
+    split
+    · exact hx
+    · exact keys_rset_mono hx
+
 theorem closure_keys (S : Schemas) (pkg : String) :
-    ∀ (fuel : Nat) (d : Def) (q : Pending) (D : Def), closure S pkg fuel d q = some D → ∀ x ∈ keys d, x ∈ keys D := by
+    ∀ (fuel : Nat) (d : Def) (q : Pending) (em : List String) (D : Def),
+      closure S pkg fuel d q em = some D → ∀ x ∈ keys d, x ∈ keys D := by
   intro fuel
   induction fuel with
-  | zero => intro d q D h; simp [closure] at h
+  | zero => intro d q em D h; simp [closure] at h
   | succ n ih =>
-    intro d q D h x hx
+    intro d q em D h x hx
     simp only [closure] at h
     split at h
     · cases h; exact hx
-    · exact ih _ _ D h x ((runObjs_keys S pkg _ (d, [])).1 x hx)
+    · exact ih _ _ _ D h x (runForeign_keys S pkg q (d, [], em) x hx)
 
 theorem emitDefs_has_objects {S : Schemas} {s : Schema} {fuel : Nat} {D : Def} (he : emitDefs fuel S s = some D) :
     ∀ o ∈ schemaObjs s, o.name ∈ keys D := by
   intro o ho
-  exact closure_keys S s.pkg fuel _ _ D he _ ((runObjs_keys S s.pkg (schemaObjs s) ([], [])).2 o ho)
+  exact closure_keys S s.pkg fuel _ _ _ D he _ ((runObjs_keys S s.pkg (schemaObjs s) ([], [])).2 o ho)
 
 /-! ### fields -/
 
